@@ -94,6 +94,9 @@ func (vc *VC) nlfreeOfFormat(format ssa.Value, args ssa.Value) (Term, bool) {
 		if mi, ok := a.(*ssa.MakeInterface); ok {
 			inner = mi.X
 		}
+		if ci, ok := a.(*ssa.ChangeInterface); ok {
+			inner = ci.X // an interface value handed over as `any`
+		}
 		// an error value under %w / %v / %s renders as its Error() text
 		if verb == 'w' || verb == 's' || verb == 'v' {
 			if types.Identical(a.Type(), errorType) || (inner != a && types.Identical(inner.Type(), errorType)) {
@@ -102,6 +105,14 @@ func (vc *VC) nlfreeOfFormat(format ssa.Value, args ssa.Value) (Term, bool) {
 			}
 			if a.Type() != nil && types.IsInterface(a.Type()) && types.Identical(inner.Type(), errorType) {
 				conds = append(conds, sx("nlfree", sx("errtext", vc.v(inner))))
+				continue
+			}
+		}
+		// a concrete error obtained by a type assertion from an error value (`s, ok := err.(*json.SyntaxError)`)
+		// renders as the text of that error value
+		if verb == 's' || verb == 'v' {
+			if src := assertedFrom(inner); src != nil && types.Identical(src.Type(), errorType) {
+				conds = append(conds, sx("nlfree", sx("errtext", vc.v(src))))
 				continue
 			}
 		}
@@ -130,6 +141,11 @@ func (vc *VC) nlfreeOfFormat(format ssa.Value, args ssa.Value) (Term, bool) {
 				if vc.e.cs.NlfreeString[key] {
 					continue
 				}
+				// a Stringer of the package (not an error) whose String method - every implementation, for
+				// an interface - is under the contract `ensures nlfree(result)`: fmt shows String()
+				if vc.e.stringerNlfree(inner.Type()) || (inner != a && vc.e.stringerNlfree(a.Type())) {
+					continue
+				}
 				return "", false
 			}
 		default:
@@ -140,3 +156,68 @@ func (vc *VC) nlfreeOfFormat(format ssa.Value, args ssa.Value) (Term, bool) {
 }
 
 var errorType = types.Universe.Lookup("error").Type()
+
+// stringerNlfree: values of type t are rendered by fmt through a String method of this package, and every
+// implementation that can be meant has a contract clause `ensures nlfree(result)`.
+func (e *Engine) stringerNlfree(t types.Type) bool {
+	if t == nil || types.Implements(t, errorType.Underlying().(*types.Interface)) {
+		return false
+	}
+	has := func(fn *ssa.Function) bool {
+		if fn == nil || fn.Pkg != e.pkg {
+			return false
+		}
+		con := e.cs.Funcs[e.fname(fn)]
+		if con == nil {
+			return false
+		}
+		for _, c := range con.Ensures {
+			if c.Text == "nlfree(result)" {
+				return true
+			}
+		}
+		return false
+	}
+	ms := e.prog.MethodSets.MethodSet(t)
+	for i := 0; i < ms.Len(); i++ {
+		sel := ms.At(i)
+		if sel.Obj().Name() != "String" {
+			continue
+		}
+		m, ok := sel.Obj().(*types.Func)
+		if !ok {
+			return false
+		}
+		sig := m.Type().(*types.Signature)
+		if sig.Params().Len() != 0 || sig.Results().Len() != 1 {
+			return false
+		}
+		if types.IsInterface(t) {
+			impls := e.implementers(t, m)
+			if len(impls) == 0 {
+				return false
+			}
+			for _, g := range impls {
+				if !has(g) {
+					return false
+				}
+			}
+			return true
+		}
+		return has(e.prog.MethodValue(sel))
+	}
+	return false
+}
+
+// assertedFrom: v is the result of a type assertion x.(T); returns x.
+func assertedFrom(v ssa.Value) ssa.Value {
+	switch y := v.(type) {
+	case *ssa.TypeAssert:
+		return y.X
+	case *ssa.Extract:
+		if ta, ok := y.Tuple.(*ssa.TypeAssert); ok && y.Index == 0 {
+			return ta.X
+		}
+	}
+	return nil
+}
